@@ -81,7 +81,15 @@ func (nd *KVNode) scanCommand(cmd redcon.Command) (interface{}, error) {
 	if length < count || length == 0 {
 		nextCursor = []byte("")
 	} else {
-		nextCursor = ay[len(ay)-1]
+		// the cursor is the key without its table, as advscan returns it: the merge layer of
+		// the server puts the table in front again when the cursor comes back
+		item := ay[len(ay)-1]
+		_, rk, err := common.ExtractTable(item)
+		if err != nil {
+			nextCursor = []byte("")
+		} else {
+			nextCursor = rk
+		}
 	}
 
 	if length > 0 {
